@@ -396,32 +396,65 @@ func (d *driver) schedule(powers []int64) ([]int, error) {
 	return out, nil
 }
 
+// byzBlock is one block the Byzantine proposer sends (it may equivocate: one block per honest node).
+type byzBlock struct {
+	id     string
+	a      abstractBlock
+	want   string
+	blk    *types.Block
+	what   string
+	pm     *pbft.ProposalMessage
+	parts  []*pbft.BlockPartMessage
+	psh    types.PartSetHeader
+	hash   []byte
+	action string
+}
+
 func (d *driver) byz(ti int, tr mbt.Trace) {
 	powers := powersOf(tr.Cfg)
 	last := int64(cfgInt(tr.Cfg, "Last", 1))
 	seed := cfgInt(tr.Cfg, "seed", 1)
-	var val *mbt.Step
+	var blocks []*byzBlock
 	for si := range tr.Steps {
 		d.rep.Steps++
 		if tr.Steps[si].A == "CallValidateBlock" {
-			val = &tr.Steps[si]
+			val := tr.Steps[si]
+			var ablk interface{} = tr.Init["blk"]
+			if b, ok := val.Post["blk"]; ok {
+				ablk = b
+			}
+			a, err := parseBlk(ablk)
+			if err != nil {
+				d.fail(ti, tr, 0, "byz", "error", false, "bad-trace", err.Error(), nil, nil)
+				return
+			}
+			blocks = append(blocks, &byzBlock{id: tr.ID, a: a, want: normWant(mbt.Str(val.Args[0]))})
 		}
 	}
-	if val == nil {
+	// further blocks for the other honest nodes (only blocks the specification rejects are bundled)
+	if bl, ok := tr.Cfg["bundle"].([]interface{}); ok {
+		for _, x := range bl {
+			m, _ := x.(map[string]interface{})
+			a, err := parseBlk(m["blk"])
+			if err != nil {
+				d.fail(ti, tr, 0, "byz", "error", false, "bad-trace", err.Error(), nil, nil)
+				return
+			}
+			blocks = append(blocks, &byzBlock{id: mbt.Str(m["id"]), a: a, want: normWant(mbt.Str(m["want"]))})
+		}
+	}
+	if len(blocks) == 0 {
 		d.fail(ti, tr, 0, "byz", "error", false, "bad-trace", "no CallValidateBlock step", nil, nil)
 		return
 	}
-	action := fmt.Sprintf("ByzPropose%v", val.Args)
-	var ablk interface{} = tr.Init["blk"]
-	if b, ok := val.Post["blk"]; ok {
-		ablk = b
+	for _, b := range blocks {
+		b.action = fmt.Sprintf("ByzPropose[%s %s]", b.id, b.want)
+		if len(blocks) > 1 && b.want == "ok" {
+			d.fail(ti, tr, 0, b.action, "error", false, "bad-trace", "a valid block cannot be part of an equivocating bundle", nil, nil)
+			return
+		}
 	}
-	a, err := parseBlk(ablk)
-	if err != nil {
-		d.fail(ti, tr, 0, action, "error", false, "bad-trace", err.Error(), nil, nil)
-		return
-	}
-	want := normWant(mbt.Str(val.Args[0]))
+	action := blocks[0].action
 	sched, err := d.schedule(powers)
 	if err != nil {
 		d.fail(ti, tr, 0, action, "error", false, "setup", err.Error(), nil, nil)
@@ -464,26 +497,28 @@ func (d *driver) byz(ti int, tr mbt.Trace) {
 			return
 		}
 	}
-	ref := honest[0]
-	g := groundOf(w, ref)
-	blk, desc := g.concretise(a, rngFor(seed, tr.ID, 0), tr.ID)
-	what := fmt.Sprintf("abstract block %v slots %v [%s]", a.f, a.slots, desc)
-	_, bz, werr := overWire(blk)
-	if werr != nil {
-		d.fail(ti, tr, 0, action, "error", false, "wire", werr.Error(), nil, nil)
-		return
+	g := groundOf(w, honest[0])
+	for _, b := range blocks {
+		var desc string
+		b.blk, desc = g.concretise(b.a, rngFor(seed, b.id, 0), b.id)
+		b.what = fmt.Sprintf("abstract block %v slots %v [%s]", b.a.f, b.a.slots, desc)
+		_, bz, werr := overWire(b.blk)
+		if werr != nil {
+			d.fail(ti, tr, 0, b.action, "error", false, "wire", werr.Error(), nil, nil)
+			return
+		}
+		b.pm, b.parts, b.psh = w.proposal(k, target, 0, bz)
+		if fresh, _, _ := overWire(b.blk); fresh != nil && fresh.Header != nil {
+			b.hash = fresh.Hash()
+		}
 	}
-	pm, parts, psh := w.proposal(k, target, 0, bz)
-	var blockHash []byte
-	if fresh, _, _ := overWire(blk); fresh != nil && fresh.Header != nil {
-		blockHash = fresh.Hash()
-	}
-	for _, i := range honest {
+	for x, i := range honest {
+		b := blocks[x%len(blocks)]
 		n := w.s.Nodes[i]
-		pn, stack := mbt.Catch(func() { w.inject(i, pm, parts, fmt.Sprintf("peer%d", k)) })
+		pn, stack := mbt.Catch(func() { w.inject(i, b.pm, b.parts, fmt.Sprintf("peer%d", k)) })
 		d.rep.Checks++
 		if pn != nil {
-			d.fail(ti, tr, 0, action, "panic", true, "proposal-panic:"+want, fmt.Sprintf("node %d panicked on the proposal of Byzantine validator %d: %v; %s\n%s", i, k, pn, what, stack), want, "panic")
+			d.fail(ti, tr, 0, b.action, "panic", true, "proposal-panic:"+b.want, fmt.Sprintf("node %d panicked on the proposal of Byzantine validator %d: %v; %s\n%s", i, k, pn, b.what, stack), b.want, "panic")
 			return
 		}
 		// the node must have prevoted: nil for an invalid block, the block for a valid one
@@ -494,20 +529,20 @@ func (d *driver) byz(ti int, tr mbt.Trace) {
 			}
 		}
 		if pv == nil {
-			d.fail(ti, tr, 0, action, "mismatch", false, "no-prevote", fmt.Sprintf("node %d did not prevote after the complete proposal; %s", i, what), nil, nil)
+			d.fail(ti, tr, 0, b.action, "mismatch", false, "no-prevote", fmt.Sprintf("node %d did not prevote after the complete proposal; %s", i, b.what), nil, nil)
 			return
 		}
 		forBlock := !pv.BlockID.IsZero()
-		if forBlock && want != "ok" {
-			ops, _, _ := checkBlock(w.priors[i][last], blk)
+		if forBlock && b.want != "ok" {
+			ops, _, _ := checkBlock(w.priors[i][last], b.blk)
 			kind := "spec-only"
 			if len(ops) > 0 {
 				kind = ops[0].kind
 			}
-			d.fail(ti, tr, 0, action, "property", true, "prevoted-invalid:"+kind, fmt.Sprintf("node %d prevoted for an invalid proposal (%s); %s", i, want, what), "nil prevote", fmt.Sprintf("%X", pv.BlockID.Hash))
+			d.fail(ti, tr, 0, b.action, "property", true, "prevoted-invalid:"+kind, fmt.Sprintf("node %d prevoted for an invalid proposal (%s); %s", i, b.want, b.what), "nil prevote", fmt.Sprintf("%X", pv.BlockID.Hash))
 		}
-		if !forBlock && want == "ok" {
-			d.fail(ti, tr, 0, action, "mismatch", true, "prevoted-nil-for-valid", fmt.Sprintf("node %d prevoted nil for a valid proposal; %s", i, what), "block", "nil")
+		if !forBlock && b.want == "ok" {
+			d.fail(ti, tr, 0, b.action, "mismatch", true, "prevoted-nil-for-valid", fmt.Sprintf("node %d prevoted nil for a valid proposal; %s", i, b.what), "block", "nil")
 			return
 		}
 		if forBlock {
@@ -516,10 +551,10 @@ func (d *driver) byz(ti int, tr mbt.Trace) {
 			d.rep.Count("byz_proposals_refused")
 		}
 	}
-	// let the system go on until the height is committed; the Byzantine block must not be it (unless valid)
+	// let the system go on until the height is committed; no Byzantine block may be it (unless valid)
 	pn, stack = mbt.Catch(func() { err = w.run(target) })
 	if pn != nil {
-		d.fail(ti, tr, 0, action, "panic", true, "after-proposal-panic:"+want, fmt.Sprintf("honest nodes panicked after the Byzantine proposal: %v; %s\n%s", pn, what, stack), nil, nil)
+		d.fail(ti, tr, 0, action, "panic", true, "after-proposal-panic:"+blocks[0].want, fmt.Sprintf("honest nodes panicked after the Byzantine proposal: %v; %s\n%s", pn, blocks[0].what, stack), nil, nil)
 		return
 	}
 	if err != nil {
@@ -533,21 +568,26 @@ func (d *driver) byz(ti int, tr mbt.Trace) {
 			d.fail(ti, tr, 0, action, "error", false, "run", "no block meta", nil, nil)
 			return
 		}
-		isByz := meta.PartsHeader.Equals(psh) || (len(blockHash) > 0 && bytes.Equal(meta.Hash, blockHash))
-		if isByz && want != "ok" {
-			d.fail(ti, tr, 0, action, "property", true, "committed-invalid:"+want, fmt.Sprintf("node %d committed the invalid block of the Byzantine proposer; %s", i, what), nil, nil)
+		committedByz := false
+		for _, b := range blocks {
+			isByz := meta.PartsHeader.Equals(b.psh) || (len(b.hash) > 0 && bytes.Equal(meta.Hash, b.hash))
+			if isByz && b.want != "ok" {
+				d.fail(ti, tr, 0, b.action, "property", true, "committed-invalid:"+b.want, fmt.Sprintf("node %d committed the invalid block of the Byzantine proposer; %s", i, b.what), nil, nil)
+			}
+			committedByz = committedByz || isByz
 		}
-		if want == "ok" && !isByz {
+		if blocks[0].want == "ok" && !committedByz {
 			d.rep.Count("valid_byz_block_not_committed")
 		}
-		if isByz {
+		if committedByz {
 			d.rep.Count("byz_blocks_committed")
 		}
 		ps, _ := w.checkCommitted(i, target)
 		for _, x := range ps {
-			d.fail(ti, tr, 0, action, "property", true, x.kind, x.detail+"; after "+what, nil, nil)
+			d.fail(ti, tr, 0, action, "property", true, x.kind, x.detail+"; after "+blocks[0].what, nil, nil)
 		}
 	}
+	d.rep.Counters["byz_blocks_proposed"] += len(blocks)
 	d.rep.Traces++
 }
 
